@@ -39,27 +39,35 @@ extern size_t __sanitizer_get_current_allocated_bytes(void) __attribute__((weak)
 #define MAXSLOT 64
 #define MAXTOK 32
 
-static econf_file *slot[MAXSLOT];
+#ifdef THREADS
+#define TL __thread
+#else
+#define TL
+#endif
+static TL econf_file *slot[MAXSLOT];
+static TL FILE *out_fp;            /* results of the current scenario (stdout, or a per-thread buffer) */
+#define OUT (out_fp ? out_fp : stdout)
+#define printf(...) fprintf(OUT, __VA_ARGS__)
 static char scratch_base[4096];
 static int timeout_s = 20;
 
 /* ---------- output ---------- */
 static void put_hex(const char *s)
 {
-  if (s == NULL) { fputs("~", stdout); return; }
-  fputc('h', stdout);
+  if (s == NULL) { fputs("~", OUT); return; }
+  fputc('h', OUT);
   for (const unsigned char *p = (const unsigned char *)s; *p; p++)
     printf("%02x", *p);
 }
 static void put_hexn(const unsigned char *s, size_t n)
 {
-  fputc('h', stdout);
+  fputc('h', OUT);
   for (size_t i = 0; i < n; i++) printf("%02x", s[i]);
 }
 /* long strings: length + FNV hash instead of content */
 static void put_sum(const char *s)
 {
-  if (s == NULL) { fputs("~", stdout); return; }
+  if (s == NULL) { fputs("~", OUT); return; }
   size_t n = strlen(s);
   uint64_t h = 14695981039346656037ULL;
   for (size_t i = 0; i < n; i++) { h ^= (unsigned char)s[i]; h *= 1099511628211ULL; }
@@ -107,10 +115,10 @@ static char *decc(const char *t, size_t *len)
 }
 
 /* ---------- callback ---------- */
-static int cb_mode;            /* 0 none, 1 accept all, 2 reject n-th, 3 reject suffix */
-static int cb_n, cb_calls;
-static char *cb_suffix;
-static int cb_token;           /* its address is the data pointer */
+static TL int cb_mode;            /* 0 none, 1 accept all, 2 reject n-th, 3 reject suffix */
+static TL int cb_n, cb_calls;
+static TL char *cb_suffix;
+static TL int cb_token;           /* its address is the data pointer */
 static bool the_cb(const char *filename, const void *data)
 {
   printf("cb "); put_hex(filename); printf(" %d\n", data == (const void *)&cb_token);
@@ -135,7 +143,7 @@ static int cb_setup(const char *t)
 }
 
 /* fopen logging through -Wl,--wrap=fopen */
-static int log_open;
+static TL int log_open;
 FILE *__real_fopen(const char *path, const char *mode);
 FILE *__wrap_fopen(const char *path, const char *mode)
 {
@@ -282,7 +290,7 @@ static void print_file_sum(const char *path)
   fclose(f);
 }
 
-static size_t mark_bytes;
+static TL size_t mark_bytes;
 
 /* ---------- typed set / get ---------- */
 static void do_set(econf_file *kf, const char *type, const char *g, const char *k, const char *vt)
@@ -510,6 +518,7 @@ static void run_cmd(char *line)
     }
     printf("\n"); free(g); free(k);
   }
+  else if (!strcmp(c, "PATH") && !slot[sl(tok[1])]) printf("path null\n");   /* econf_getPath() does not accept NULL */
   else if (!strcmp(c, "PATH")) { char *p = econf_getPath(slot[sl(tok[1])]); printf("path "); put_hex(p); printf("\n"); free(p); }
   else if (!strcmp(c, "TAGS")) {
     econf_file *kf = strcmp(tok[1], "-") ? slot[sl(tok[1])] : NULL;
@@ -544,7 +553,7 @@ static void run_cmd(char *line)
     printf("errloc "); put_hex(f); printf(" %" PRIu64 "\n", l); free(f);
   }
   else if (!strcmp(c, "ERRSTR")) { printf("errstr "); put_hex(econf_errString((econf_err)atoi(tok[1]))); printf("\n"); }
-  else if (!strcmp(c, "MARK")) { fflush(stdout); mark_bytes = __sanitizer_get_current_allocated_bytes ? __sanitizer_get_current_allocated_bytes() : 0; }
+  else if (!strcmp(c, "MARK")) { fflush(OUT); mark_bytes = __sanitizer_get_current_allocated_bytes ? __sanitizer_get_current_allocated_bytes() : 0; }
   else if (!strcmp(c, "LEAK")) {
     fflush(stdout);
     free(cb_suffix); cb_suffix = NULL;   /* the harness' own allocation */
@@ -588,6 +597,33 @@ static char *read_scenario(char *id, size_t idsz)
   return NULL;
 }
 
+#ifdef THREADS
+#include <pthread.h>
+struct job { char *body; char *out; size_t outlen; };
+static void *thread_main(void *arg)
+{
+  struct job *j = arg;
+  out_fp = open_memstream(&j->out, &j->outlen);
+  char *save = NULL;
+  for (char *ln = strtok_r(j->body, "\n", &save); ln; ln = strtok_r(NULL, "\n", &save)) run_cmd(ln);
+  fclose(out_fp); out_fp = NULL;
+  return NULL;
+}
+/* all scenarios of stdin run concurrently, one thread each, in one chroot; each must use private paths */
+static int threads_main(void)
+{
+  char id[256]; char *body; int n = 0;
+  struct job jobs[64]; char ids[64][256]; pthread_t th[64];
+  while (n < 64 && (body = read_scenario(id, sizeof id)) != NULL) { jobs[n].body = body; jobs[n].out = NULL; snprintf(ids[n], 256, "%s", id); n++; }
+  /* no chroot here (ThreadSanitizer needs /proc to name globals): the scenarios carry real, private path prefixes */
+  for (int i = 0; i < n; i++) pthread_create(&th[i], NULL, thread_main, &jobs[i]);
+  for (int i = 0; i < n; i++) pthread_join(th[i], NULL);
+  for (int i = 0; i < n; i++) { fprintf(stdout, "#BEGIN %s\n", ids[i]); fwrite(jobs[i].out, 1, jobs[i].outlen, stdout); fprintf(stdout, "#END %s ok\n", ids[i]); }
+  fflush(stdout);
+  return 0;
+}
+#endif
+
 int main(int argc, char **argv)
 {
   const char *base = getenv("VERIF_SCRATCH");
@@ -595,6 +631,9 @@ int main(int argc, char **argv)
   if (argc > 1) timeout_s = atoi(argv[1]);
   snprintf(scratch_base, sizeof scratch_base, "%s/econf-drv-%d", base, (int)getpid());
   mkdir(scratch_base, 0755);
+#ifdef THREADS
+  { int r = threads_main(); rmdir(scratch_base); return r; }
+#endif
   char id[256]; char *body; long cnt = 0;
   setvbuf(stdout, NULL, _IOFBF, 1 << 16);
   while ((body = read_scenario(id, sizeof id)) != NULL) {
